@@ -128,7 +128,7 @@ def main():
                 def dying(self):
                     seen[0] += 1
                     if seen[0] == kill_at:
-                        os.kill(os.getpid(), signal.SIGKILL)
+                        os.kill(os.getpid(), getattr(signal, "SIG" + os.environ.get("W1P_SIGNAL", "KILL")))
                     return orig(self)
 
                 readers.DataFrameReader._get_next_chunk = dying
